@@ -302,6 +302,14 @@ type c19Case struct {
 
 func (c c19Case) class() string { return c.History + "/" + c.Sched.Class }
 
+// family is the history family used in the keys of the content cases.
+func (c c19Case) family() string {
+	if c.Partial != nil {
+		return "resume-content"
+	}
+	return "fresh-content"
+}
+
 func (c c19Case) spec(rel string) (c19FileSpec, bool) {
 	if len(c.Files) == len(c.Tree.Entries) {
 		for i, e := range c.Tree.Entries {
@@ -670,8 +678,19 @@ func (h *c19Hist) firstRun(c c19Case, m manifest.Manifest, out string) bool {
 }
 
 // judge applies the oracles to one finished transfer.
-func (h *c19Hist) judge(c c19Case, m manifest.Manifest, res c19RunRes, out string, firstRunOK bool) {
+// prior[rel] is the content the output file of rel has when this run's receiver has handled its
+// FileBegin (earlier bytes cut / zero-extended to the size); nil map entries mean all zeros.
+func (h *c19Hist) judge(c c19Case, m manifest.Manifest, res c19RunRes, out string, firstRunOK bool, prior map[string][]byte) {
 	cls := c.class()
+	isContent := len(c.Files) > 0
+	senderNil := res.sendRet && res.sendErr == nil && !res.watchdog && res.setupErr == nil
+	tileBad, hookBad := false, false
+	type fileGeo struct {
+		it      manifest.FileItem
+		cb      uint32
+		content []byte
+	}
+	var geos []fileGeo
 	cs := map[string]any{"case": c, "send_err": fmt.Sprint(res.sendErr), "recv_err": fmt.Sprint(res.recvErr), "param_source_invocations": res.calls}
 	sizes := map[uint32]bool{}
 	framesChecked := 0
@@ -765,6 +784,79 @@ func (h *c19Hist) judge(c c19Case, m manifest.Manifest, res c19RunRes, out strin
 				h.count(h.obs, "resumeinfo-with-bits/"+c.History)
 			}
 		}
+		geos = append(geos, fileGeo{it, cb, content})
+
+		// chunks the receiver declared complete in any FileResumeInfo of this run
+		claimedSet := map[uint32]bool{}
+		for _, ri := range res.wire.resumes[key] {
+			if len(ri.Bitmap) == 0 || ri.TotalChunks == 0 {
+				continue
+			}
+			if bm, err := transfer.BitmapFromBytes(ri.Bitmap, int(ri.TotalChunks)); err == nil {
+				for i := 0; i < int(ri.TotalChunks); i++ {
+					if bm.Get(i) {
+						claimedSet[uint32(i)] = true
+					}
+				}
+			}
+		}
+		// sender-tiling: a sender that returned nil in a transfer without resume has put every
+		// chunk of the announced geometry on the wire exactly once (what it reads tiles the file).
+		if senderNil && !c.Resume && !tileBad && n <= 1<<16 {
+			seen := make([]int, n)
+			for _, f := range res.wire.frames {
+				if f.key == key && uint64(f.idx) < n {
+					seen[f.idx]++
+				}
+			}
+			h.count(h.obs, "sender-frames-tiling-checked")
+			for i, k := range seen {
+				if k == 1 {
+					continue
+				}
+				tileBad = true
+				kind := "gap"
+				if k > 1 {
+					kind = "overlap"
+				}
+				h.violate(cls+":sender-frames-"+kind+":"+c.fileClass(it.RelPath), fmt.Sprintf("sender returned nil (no resume) for %s (size %d, FileBegin chunk size %d) having written chunk %d = bytes [%d,%d) %d times; the frames it wrote do not tile the file",
+					it.RelPath, it.Size, cb, i, int64(i)*int64(cb), min64(int64(i+1)*int64(cb), it.Size), k), cs,
+					map[string]any{"file": it.RelPath, "chunk": i, "times_on_the_wire": k, "frames_per_chunk": seen})
+				break
+			}
+		}
+		// receiver-tiling by its own events: after a double success every chunk of the announced
+		// geometry was either declared complete by the receiver (FileResumeInfo) or written in this
+		// run (hook recv.chunk.afterWrite); without resume each exactly once.
+		if v, ok := h.writes.Load(key); ok && res.bothOK() && !hookBad && n <= 1<<16 {
+			wl := v.(*c19WriteLog)
+			wl.mu.Lock()
+			counts := make([]int, n)
+			for i, k := range wl.counts {
+				if uint64(i) < n {
+					counts[i] = k
+				}
+			}
+			wl.mu.Unlock()
+			h.count(h.obs, "receiver-write-events-checked")
+			for i, k := range counts {
+				kind := ""
+				switch {
+				case k == 0 && !claimedSet[uint32(i)]:
+					kind = "gap"
+				case k > 1 && !c.Resume:
+					kind = "overlap"
+				}
+				if kind == "" {
+					continue
+				}
+				hookBad = true
+				h.violate(cls+":receiver-write-events-"+kind+":"+c.fileClass(it.RelPath), fmt.Sprintf("both endpoints returned nil; for %s (size %d, chunk size %d) the receiver passed its write of chunk %d = bytes [%d,%d) %d times (recv.chunk.afterWrite) and never declared it complete in a FileResumeInfo",
+					it.RelPath, it.Size, cb, i, int64(i)*int64(cb), min64(int64(i+1)*int64(cb), it.Size), k), cs,
+					map[string]any{"file": it.RelPath, "chunk": i, "write_events_per_chunk": counts, "resume": c.Resume})
+				break
+			}
+		}
 	}
 	h.countN(h.obs, "frames-checked", framesChecked)
 	if len(sizes) >= 2 {
@@ -787,9 +879,69 @@ func (h *c19Hist) judge(c c19Case, m manifest.Manifest, res c19RunRes, out strin
 		return
 	}
 	h.count(h.obs, "double-success/"+cls)
+	h.count(h.obs, "double-success-history/"+c.History)
 	h.R.Distinct(fmt.Sprintf("xfer:%s/s%d/%s/res%v/%s/f%d/#%d", cls, c.Streams, c.Transport, c.Resume, c.Verify, c.Tree.FileCount(), c.ID))
-	if diff := vk.DiffDigest(vk.ExpectedDigest(c.Tree, ""), got); len(diff) > 0 {
-		h.violate(cls+":tree", fmt.Sprintf("sender and receiver both returned nil, the output tree differs from the source: %v", diff), cs, map[string]any{"diff": diff, "chunk_sizes_on_the_wire": keysU32(sizes)})
+	if !isContent {
+		if diff := vk.DiffDigest(vk.ExpectedDigest(c.Tree, ""), got); len(diff) > 0 {
+			h.violate(cls+":tree", fmt.Sprintf("sender and receiver both returned nil, the output tree differs from the source: %v", diff), cs, map[string]any{"diff": diff, "chunk_sizes_on_the_wire": keysU32(sizes)})
+		}
+		return
+	}
+	// content cases: byte comparison per file, keyed by the file's content and destination class;
+	// the features the file presented in the announced geometry are counted for the evidence.
+	cbOf := map[string]uint32{}
+	for _, g := range geos {
+		cbOf[g.it.RelPath] = g.cb
+	}
+	seen := map[string]bool{}
+	fileBad := map[string]bool{}
+	for _, e := range c.Tree.Entries {
+		seen[e.Rel] = true
+		want := c.fileBytes(e.Rel, e.Size)
+		fc := c.fileClass(e.Rel)
+		pr := prior[e.Rel]
+		if pr == nil {
+			pr = make([]byte, e.Size)
+		}
+		cb := cbOf[e.Rel]
+		h.count(h.obs, "file-judged/"+fc)
+		if sp, ok := c.spec(e.Rel); ok {
+			h.count(h.obs, "file-judged/content-"+sp.Content)
+			h.count(h.obs, "file-judged/destination-"+sp.Dest)
+		}
+		if cb > 0 {
+			c19Analyse(want, pr, cb).addTo(func(k string, n int) { h.countN(h.obs, k, n) }, "in-announced-geometry/")
+		}
+		gotB, err := os.ReadFile(filepath.Join(out, filepath.FromSlash(e.Rel)))
+		if err == nil && bytes.Equal(gotB, want) {
+			continue
+		}
+		if fileBad[fc] {
+			continue
+		}
+		fileBad[fc] = true
+		if err != nil {
+			h.violate(c.family()+":file-missing:"+fc, fmt.Sprintf("sender and receiver both returned nil, %s cannot be read from the output directory: %v", e.Rel, err), cs, nil)
+			continue
+		}
+		kind, detail := c19DescribeDiff(gotB, want, pr, cb)
+		detail["file"], detail["filebegin_chunk_size"], detail["class"] = e.Rel, cb, fc
+		what := map[string]string{
+			"length":        "has another length than the source",
+			"never-written": "still holds, in whole chunks of the announced geometry, the bytes the destination had before: the receiver's writes do not cover the file",
+			"bytes":         "differs from the source",
+		}[kind]
+		h.violate(c.family()+":file-"+kind+":"+fc, fmt.Sprintf("sender and receiver both returned nil, output file %s (size %d, FileBegin chunk size %d) %s", e.Rel, e.Size, cb, what), cs, detail)
+	}
+	var extra []string
+	for rel, de := range got {
+		if !seen[rel] && de.Kind != "dir" {
+			extra = append(extra, rel)
+		}
+	}
+	if len(extra) > 0 {
+		sort.Strings(extra)
+		h.violate(cls+":tree", fmt.Sprintf("sender and receiver both returned nil, the output directory holds entries the source does not have: %v", extra), cs, map[string]any{"extra": extra})
 	}
 }
 
@@ -811,13 +963,8 @@ func (h *c19Hist) runCase(c c19Case, lp *vk.ListenerPool) {
 	base := h.dir()
 	defer os.RemoveAll(base)
 	src, out := filepath.Join(base, "src"), filepath.Join(base, "out")
-	if c.Tree.Materialize(src) != nil || os.MkdirAll(out, 0755) != nil {
-		h.count(h.notObs, "case: cannot materialise the tree")
-		return
-	}
-	m, err := manifest.Scan(src)
-	if err != nil {
-		h.count(h.notObs, "case: scan failed")
+	m, prior, ok := h.prepare(c, src, out)
+	if !ok {
 		return
 	}
 	firstOK := false
@@ -826,14 +973,130 @@ func (h *c19Hist) runCase(c c19Case, lp *vk.ListenerPool) {
 		if !firstOK {
 			return
 		}
+		if !h.firstRunWrites(c, out, prior) {
+			return
+		}
+	}
+	for _, it := range m.Items {
+		if !it.IsDir {
+			key := transfer.VerifC19FileKey(it)
+			h.writes.Store(key, &c19WriteLog{counts: map[uint32]int{}})
+			defer h.writes.Delete(key)
+		}
 	}
 	res := h.transferRun(c, lp, m, src, out)
 	transfer.VerifRetireSidecars(out)
-	h.judge(c, m, res, out, firstOK)
+	h.judge(c, m, res, out, firstOK, prior)
 	if c.ID%37 == 0 {
 		h.R.Sample(map[string]any{"case": c, "send_err": fmt.Sprint(res.sendErr), "recv_err": fmt.Sprint(res.recvErr),
 			"filebegins_on_wire": len(res.wire.begins), "frames_on_wire": len(res.wire.frames)})
 	}
+}
+
+// prepare materialises the source tree (content classes) and the output directory (destination
+// classes) of a case and scans the source. prior[rel] = what the output file will hold once the
+// receiver has opened and sized it.
+func (h *c19Hist) prepare(c c19Case, src, out string) (m manifest.Manifest, prior map[string][]byte, ok bool) {
+	prior = map[string][]byte{}
+	if c.Tree.Materialize(src) != nil || os.MkdirAll(out, 0755) != nil {
+		h.count(h.notObs, "case: cannot materialise the tree")
+		return m, prior, false
+	}
+	if len(c.Files) > 0 {
+		for _, e := range c.Tree.Entries {
+			if e.Dir {
+				continue
+			}
+			content := c.fileBytes(e.Rel, e.Size)
+			if c19WriteFile(filepath.Join(src, filepath.FromSlash(e.Rel)), content) != nil {
+				h.count(h.notObs, "case: cannot write the source content")
+				return m, prior, false
+			}
+			d, present := c.destBefore(e.Rel, content)
+			if present {
+				if c19WriteFile(filepath.Join(out, filepath.FromSlash(e.Rel)), d) != nil {
+					h.count(h.notObs, "case: cannot write the pre-existing destination")
+					return m, prior, false
+				}
+			}
+			prior[e.Rel] = c19Prior(d, present, e.Size)
+		}
+	}
+	m, err := manifest.Scan(src)
+	if err != nil {
+		h.count(h.notObs, "case: scan failed")
+		return m, prior, false
+	}
+	return m, prior, true
+}
+
+// firstRunWrites looks at the output file of an interrupted first run of a content case: the
+// receiver was given exactly the chunks Partial.Chunks of the geometry (size, C1) and has marked
+// them. Every byte inside those chunks must now be the source byte, every byte outside them must
+// be what the destination held before (cut / zero-extended to the file size): the receiver's
+// writes are exactly the tiles it was given. Updates prior[rel] to the observed state.
+func (h *c19Hist) firstRunWrites(c c19Case, out string, prior map[string][]byte) bool {
+	p := c.Partial
+	sp, isContent := c.spec(p.Rel)
+	if !isContent {
+		return true
+	}
+	var size int64
+	for _, e := range c.Tree.Entries {
+		if e.Rel == p.Rel {
+			size = e.Size
+		}
+	}
+	want := c.fileBytes(p.Rel, size)
+	before := prior[p.Rel]
+	got, err := os.ReadFile(filepath.Join(out, filepath.FromSlash(p.Rel)))
+	if err != nil {
+		h.count(h.notObs, "first-run-writes: output file unreadable")
+		return false
+	}
+	fc := c.fileClass(p.Rel)
+	h.count(h.obs, "first-run-writes-observed/content-"+sp.Content)
+	h.count(h.obs, "first-run-writes-observed/destination-"+sp.Dest)
+	c19Analyse(want, before, p.C1).addTo(func(k string, n int) { h.countN(h.obs, k, n) }, "first-run-geometry/")
+	cs := map[string]any{"case": c}
+	if int64(len(got)) != size {
+		h.violate(c.family()+":first-run-writes-length:"+fc, fmt.Sprintf("after FileBegin{FileSize %d, ChunkSize %d} and chunks %v the output file %s is %d bytes long", size, p.C1, p.Chunks, p.Rel, len(got)), cs, nil)
+		return false
+	}
+	cover := c19NewCover(size, p.C1, p.Chunks)
+	for _, idx := range p.Chunks {
+		lo := int64(idx) * int64(p.C1)
+		hi := min64(lo+int64(p.C1), size)
+		if lo >= hi {
+			continue
+		}
+		zero := bytes.Count(want[lo:hi], []byte{0}) == int(hi-lo)
+		if zero && bytes.Count(before[lo:hi], []byte{0}) != int(hi-lo) {
+			h.count(h.obs, "first-run/delivered-all-zero-chunk-over-nonzero-destination-bytes")
+		}
+		if !zero && bytes.Equal(want[lo:hi], before[lo:hi]) {
+			h.count(h.obs, "first-run/delivered-chunk-already-present-at-destination")
+		}
+	}
+	for i := int64(0); i < size; i++ {
+		exp, what := before[i], "outside the delivered chunks, where the destination's earlier byte must still be"
+		if cover[i] {
+			exp, what = want[i], "inside a delivered (and marked) chunk, where the source byte must be"
+		}
+		if got[i] == exp {
+			continue
+		}
+		kind := "outside-delivered-chunks"
+		if cover[i] {
+			kind = "marked-chunk-not-written"
+		}
+		h.violate(c.family()+":first-run-writes-"+kind+":"+fc, fmt.Sprintf("the receiver was given chunks %v of %s (size %d, chunk size %d) and marked them; byte %d (chunk %d) is %#02x, %s (%#02x)",
+			p.Chunks, p.Rel, size, p.C1, i, i/int64(p.C1), got[i], what, exp), cs,
+			map[string]any{"file": p.Rel, "offset": i, "chunk": i / int64(p.C1), "class": fc})
+		return false
+	}
+	prior[p.Rel] = got
+	return true
 }
 
 // ------------------------------------------------------------------ case generation
@@ -1013,6 +1276,89 @@ func c19GenResume(r *vk.Rng, id int, history string) c19Case {
 		Partial: &c19Partial{Rel: rel, C1: c1, Chunks: chunks, Kind: kind}}
 }
 
+// ------------------------------------------------------------------ content cases
+
+func c19ContentSize(r *vk.Rng, a uint32) int64 {
+	k := int64(2 + r.Intn(5))
+	switch r.Intn(6) {
+	case 0:
+		return k * int64(a)
+	case 1:
+		return k*int64(a) + 1
+	case 2:
+		return k*int64(a) - 1
+	case 3:
+		return 1 + int64(r.Intn(int(a)))
+	}
+	return k*int64(a) + int64(r.Intn(int(a)))
+}
+
+func c19OtherClass(r *vk.Rng, list []string) string { return list[r.Intn(len(list))] }
+
+// c19GenContent: a fresh multi-file transfer in which file 0 has the given content and
+// destination class; the other files have it too or a random one (a transfer mixes classes, so
+// that buffers and per-stream state see a zero / repeated chunk after an ordinary one).
+func c19GenContent(r *vk.Rng, id int, content, dest string) c19Case {
+	nfiles := 2 + r.Intn(4)
+	class := "const"
+	if r.Bool() {
+		class = c19SchedClasses[1+r.Intn(len(c19SchedClasses)-1)]
+	}
+	sched, opt := c19GenSched(r, class, nfiles)
+	var css []uint32
+	for i, v := range sched.Vals {
+		if v > 200 && class == "const" {
+			v = 64
+			sched.Vals[i] = v
+		}
+		if v > 0 && v <= 200 {
+			css = append(css, v)
+		}
+	}
+	if opt > 0 && opt <= 200 && class == "zero-fallback" {
+		css = append(css, opt)
+	}
+	if len(css) == 0 {
+		css = []uint32{64}
+	}
+	t := vk.Tree{Seed: r.U64(), Shape: "c19content", Names: "plain"}
+	var files []c19FileSpec
+	for i := 0; i < nfiles; i++ {
+		fc, fd := content, dest
+		if i > 0 && r.Bool() {
+			fc, fd = c19OtherClass(r, c19ContentClasses), c19OtherClass(r, c19DestClasses)
+		}
+		a := css[r.Intn(len(css))]
+		size := c19ContentSize(r, a)
+		t.Entries = append(t.Entries, vk.Entry{Rel: fmt.Sprintf("h%05d_%d.bin", id, i), Size: size})
+		files = append(files, c19FileSpec{Content: fc, Align: a, Dest: fd, DestLen: c19PickDestLen(r, fd, size, a), Seed: r.U64()})
+	}
+	tr := "mock"
+	if id%4 == 3 {
+		tr = "quic"
+	}
+	return c19Case{ID: id, History: "fresh-content", Tree: t, Sched: sched, OptCS: opt, Streams: 1 + r.Intn(4), Transport: tr, Resume: r.Bool(), Verify: "last", Files: files}
+}
+
+// c19GenResumeContent: an interrupted first run over a destination of the given class, with a
+// file of the given content class, followed by the real resumed transfer.
+func c19GenResumeContent(r *vk.Rng, id int, base, content, dest string) c19Case {
+	c := c19GenResume(r, id, base)
+	c.History = base + "+content"
+	for _, e := range c.Tree.Entries {
+		fc, fd := c19OtherClass(r, c19ContentClasses), c19OtherClass(r, c19DestClasses)
+		a := c.OptCS
+		if e.Rel == c.Partial.Rel {
+			fc, fd = content, dest
+			if r.Bool() {
+				a = c.Partial.C1
+			}
+		}
+		c.Files = append(c.Files, c19FileSpec{Content: fc, Align: a, Dest: fd, DestLen: c19PickDestLen(r, fd, e.Size, a), Seed: r.U64()})
+	}
+	return c
+}
+
 // ------------------------------------------------------------------ the stage
 
 func runC19Hist(e *Env) {
@@ -1042,6 +1388,15 @@ func runC19Hist(e *Env) {
 		}
 	})
 	defer verifhook.Set("recv.chunk.afterMark", nil)
+	verifhook.Set("recv.chunk.afterWrite", func(ev verifhook.Event) {
+		if v, ok := h.writes.Load(ev.A); ok {
+			wl := v.(*c19WriteLog)
+			wl.mu.Lock()
+			wl.counts[uint32(ev.B)]++
+			wl.mu.Unlock()
+		}
+	})
+	defer verifhook.Set("recv.chunk.afterWrite", nil)
 	t0 := time.Now()
 
 	// ---- A(a) sidecar loaders ----
@@ -1068,6 +1423,21 @@ func runC19Hist(e *Env) {
 	for _, hi := range c19ResumeHistories {
 		for i := 0; i < perResume; i++ {
 			cases = append(cases, c19GenResume(r.Fork(), len(cases), hi))
+		}
+	}
+	// content classes x destination classes (appended, so that the cases above stay what they were)
+	perCombo, perResumeCombo := e.Pick(4, 30), e.Pick(2, 15)
+	nContent, nResumeContent := 0, 0
+	for _, cc := range c19ContentClasses {
+		for _, dc := range c19DestClasses {
+			for i := 0; i < perCombo; i++ {
+				cases = append(cases, c19GenContent(r.Fork(), len(cases), cc, dc))
+				nContent++
+			}
+			for i := 0; i < perResumeCombo; i++ {
+				cases = append(cases, c19GenResumeContent(r.Fork(), len(cases), c19ResumeHistories[(nResumeContent)%len(c19ResumeHistories)], cc, dc))
+				nResumeContent++
+			}
 		}
 	}
 	vk.ParallelDo(len(cases), 16, func(i int) { h.runCase(cases[i], lp) })
@@ -1107,5 +1477,40 @@ func runC19Hist(e *Env) {
 	R.Require(h.obs["transfers-with-several-chunk-sizes-on-the-wire"] >= 3*perFresh, fmt.Sprintf("only %d transfers carried FileBegins with different chunk sizes", h.obs["transfers-with-several-chunk-sizes-on-the-wire"]))
 	R.Require(h.obs["frames-checked"] >= 20*perFresh, fmt.Sprintf("only %d data frames were compared with their FileBegin", h.obs["frames-checked"]))
 	R.Require(h.obs["first-run-sidecar-on-disk/nonprefix"] >= perResume, fmt.Sprintf("only %d interrupted first runs left the chosen non-prefix bitmap on disk", h.obs["first-run-sidecar-on-disk/nonprefix"]))
+	// content and destination classes
+	R.SetExtra("content_classes", c19ContentClasses)
+	R.SetExtra("destination_classes", c19DestClasses)
+	R.SetExtra("content_cases_planned", map[string]int{"fresh-content": nContent, "resume+content": nResumeContent})
+	R.Require(h.obs["double-success-history/fresh-content"] >= nContent/2, fmt.Sprintf("only %d of %d fresh content-class transfers reached the byte comparison", h.obs["double-success-history/fresh-content"], nContent))
+	resumedContentOK := 0
+	for _, hi := range c19ResumeHistories {
+		resumedContentOK += h.obs["double-success-history/"+hi+"+content"]
+	}
+	R.Require(resumedContentOK >= nResumeContent/2, fmt.Sprintf("only %d of %d resumed content-class transfers reached the byte comparison", resumedContentOK, nResumeContent))
+	for _, cc := range c19ContentClasses {
+		k := "file-judged/content-" + cc
+		R.Require(h.obs[k] >= 3*perCombo, fmt.Sprintf("%s: only %d output files compared", k, h.obs[k]))
+	}
+	for _, dc := range c19DestClasses {
+		k := "file-judged/destination-" + dc
+		R.Require(h.obs[k] >= 3*perCombo, fmt.Sprintf("%s: only %d output files compared", k, h.obs[k]))
+		k = "first-run-writes-observed/destination-" + dc
+		R.Require(h.obs[k] >= 3*perResumeCombo, fmt.Sprintf("%s: only %d interrupted first runs inspected on disk", k, h.obs[k]))
+	}
+	for k, need := range map[string]int{
+		"in-announced-geometry/all-zero-chunk-over-nonzero-destination-bytes":    10 * perCombo,
+		"in-announced-geometry/all-zero-chunk":                                   20 * perCombo,
+		"in-announced-geometry/chunk-equal-to-previous-chunk":                    10 * perCombo,
+		"in-announced-geometry/zero-run-across-a-chunk-boundary-unaligned":       5 * perCombo,
+		"in-announced-geometry/unaligned-zero-run-covering-a-whole-chunk":        2 * perCombo,
+		"in-announced-geometry/all-zero-short-last-chunk":                        2 * perCombo,
+		"in-announced-geometry/chunk-already-present-at-destination":             5 * perCombo,
+		"first-run/delivered-all-zero-chunk-over-nonzero-destination-bytes":      3 * perResumeCombo,
+		"first-run/delivered-chunk-already-present-at-destination":               perResumeCombo,
+		"receiver-write-events-checked":                                          20 * perFresh,
+		"sender-frames-tiling-checked":                                           5 * perFresh,
+	} {
+		R.Require(h.obs[k] >= need, fmt.Sprintf("%s: observed %d times, need %d (the content-dependent situation would otherwise not have been exercised)", k, h.obs[k], need))
+	}
 	R.Require(h.obs["resumeinfo-with-bits/resume-samesize"] >= perResume/3, "resumed transfers with an unchanged chunk size never carried recorded chunks in FileResumeInfo (claims oracle would be vacuous)")
 }
